@@ -92,14 +92,20 @@ def len_at(tree, pos):
     return len(get_at(tree, pos))
 
 
-def render(rng, tree, pos, style=None):
-    """a spelling of the path to `pos` (pos must not be empty); style None = random mix"""
+HIDDEN_SELF = ["[0]", "[-1]", "[last()]", "/[0]", "[ 0 ]"]
+
+
+def render(rng, tree, pos, style=None, hidden=0.0, hidden_at=None):
+    """a spelling of the path to `pos` (pos must not be empty); style None = random mix.
+    hidden > 0 (random style only): with that probability a node on the path that is not a list is followed by an index
+    that addresses the node itself - lookup reads a single value as the list of this one item ([0], [-1], [last()]);
+    the prefix lengths where this was done are appended to hidden_at.  hidden = 0 draws nothing from rng."""
     out = ""
     first = True
     cur = tree
     prev_idx = False
     prefix = rng.choice(["", "", "/", "//"]) if style is None else {"canon": "//", "rel": ""}.get(style, "")
-    for s in pos:
+    for k, s in enumerate(pos):
         if isinstance(s, str):
             out += ("" if first else "/") + s
             prev_idx = False
@@ -136,6 +142,11 @@ def render(rng, tree, pos, style=None):
             prev_idx = True
         cur = cur[s]
         first = False
+        if hidden and style is None and not isinstance(cur, list) and rng.random() < hidden:
+            out += rng.choice(HIDDEN_SELF)
+            prev_idx = True
+            if hidden_at is not None:
+                hidden_at.append(k + 1)
     return prefix + out
 
 
